@@ -50,6 +50,7 @@ MODELS = {
     9: dict(_three=1),       # three leaf functions of different classes in one model
     10: dict(_c16="unbounded1"),     # a model without finite value
     11: dict(_c16="infeasible1"),    # an infeasible model
+    12: dict(cls=1, steps="gg", comp=0, ucons=[], lmis=["S2"], metrics=1, part=0, _heur="logdet2"),   # two heuristic iterations
 }
 
 
@@ -171,7 +172,7 @@ def run_b(bid, verbose):
     h = hashlib.sha256()
     rows = hashlib.sha256()
     if out != "num" and b.pep.wrapper is None:
-        return dict(snap=snap, hash="-", rows="-", val="-", out=out)
+        return dict(snap=snap, hash="-", rows="-", val="-", out=out, inst="-")
     w = b.pep.wrapper
     try:
         import cvxpy as cp
@@ -199,7 +200,13 @@ def run_b(bid, verbose):
         else:
             n = o.shape[0]
             rows.update(json.dumps(["psd", [sorted_dict(o[i, j]) for i in range(n) for j in range(n)]]).encode())
-    return dict(snap=snap, hash=h.hexdigest()[:24], rows=rows.hexdigest()[:24], val=repr(ret), out=out)
+    # the primal instance kept by the problem object (after a heuristic: the one of the last internal solve)
+    inst = hashlib.sha256()
+    for name in ("G_value", "F_value"):
+        v = getattr(b.pep, name, None)
+        inst.update(b"-" if v is None else np.ascontiguousarray(np.asarray(v, dtype=float)).tobytes())
+    return dict(snap=snap, hash=h.hexdigest()[:24], rows=rows.hexdigest()[:24], val=repr(ret), out=out,
+                inst=inst.hexdigest()[:24])
 
 
 def three_functions(on_pep):
